@@ -5,6 +5,7 @@ from sa.rules import bounds_rules as R
 from sa.rules import dispatch as D
 from sa.rules import pipeline as P
 from sa.rules import ranges as RG
+from sa.rules import resolve_rules as RR
 
 
 def main(tier):
@@ -36,4 +37,5 @@ def main(tier):
     chk.run("R-INTRANGE", RG.intrange, r, floor=190)
     chk.run("R-INTERMEDIATE", RG.intermediate, r, floor=2)
     chk.run("R-RENDERCONST", RG.renderconst, r, floor=30)
+    chk.run("R-PATHEND", RR.pathend, r, floor=2, modules=("compiler/front_end/expression_bounds.py",))
     return chk.finish()
